@@ -16,6 +16,19 @@ def make_cases(rng, tier, n):
         else:
             c = gen.basic_project(rng, cid, tier, stats=stats)
         c["family"] = fam
+        if i % 40 == 7 or (fam == "roundtrip" and rng.random() < 0.04):
+            # "any tree": a chain of directories deeper than any worker pool (65 tokens), a file at the bottom and on the way
+            dart0 = [a for a in s1eval.artifacts(c) if a[1] == "d"]
+            if dart0:
+                p = dart0[0][0]
+                for lvl in range(rng.choice([66, 70, 90])):
+                    p = p + b"/n"
+                    c["init"].append(("dir", p))
+                    if lvl % 16 == 3:
+                        c["init"].append(("file", p + b"/w.txt", "g:%d:%d" % (lvl, lvl)))
+                c["init"].append(("file", p + b"/bottom.bin", "g:5:65537"))
+                c["timeout"] = 60
+                stats["deep_chain"] = stats.get("deep_chain", 0) + 1
         if fam == "pipeline" and len(c["stages"]) >= 2:
             # later stages take an earlier stage's outputs (and a path inside a directory output) as inputs
             for k in range(1, len(c["stages"])):
